@@ -46,7 +46,12 @@ def _slice_from(stmts, pred_start, pred_stop=None):
 
 
 def _assigns_name(st, name):
-    return isinstance(st, ast.Assign) and len(st.targets) == 1 and isinstance(st.targets[0], ast.Name) and st.targets[0].id == name
+    if not (isinstance(st, ast.Assign) and len(st.targets) == 1):
+        return False
+    tg = st.targets[0]
+    if isinstance(tg, ast.Name):
+        return tg.id == name
+    return isinstance(tg, (ast.Tuple, ast.List)) and any(isinstance(e, ast.Name) and e.id == name for e in tg.elts)
 
 
 def _nm_update_branch(f):
@@ -165,18 +170,31 @@ def initial_simplex(ctx):
 class _PowellDelta(ast.NodeTransformer):
     """removes the declared differences between PowellDirectionalSolver._Step and the reference fmin_powell"""
 
+    guard_names = ()      # locals holding the inf/inf guard  isinf(a) & isinf(b)  (whatever they are called)
+
     def visit_Assign(self, node):
         txt = ''.join(unparse(node).split())
         if txt.startswith('x=asarray(constraints(x)'):
             return None            # constraint application (delta)
-        if txt.startswith('isnan='):
+        if len(node.targets) == 1 and isinstance(node.targets[0], ast.Name) and node.targets[0].id in self.guard_names:
             return None            # inf/inf guard (delta)
         return self.generic_visit(node)
+
+    def visit_For(self, node):
+        # the loop over the direction set: `for i in ilist` / `for i in range(len(x))` / `for i in range(N)` - one token
+        self.generic_visit(node)
+        it = node.iter
+        if (isinstance(it, ast.Name) and it.id == 'ilist') or (isinstance(it, ast.Call) and isinstance(it.func, ast.Name) and it.func.id in ('range', 'list')):
+            if isinstance(node.target, ast.Name) and any(isinstance(n, ast.Subscript) and isinstance(n.value, ast.Name) and n.value.id == 'direc' and
+                                                         isinstance(n.slice, ast.Name) and n.slice.id == node.target.id for n in ast.walk(node)):
+                node.iter = ast.copy_location(ast.Name(id='DIRECTIONS', ctx=ast.Load()), it)
+        return node
 
     def visit_BoolOp(self, node):
         self.generic_visit(node)
         if isinstance(node.op, ast.And):
-            vals = [v for v in node.values if ''.join(unparse(v).split()) != 'notisnan']
+            vals = [v for v in node.values if not (isinstance(v, ast.UnaryOp) and isinstance(v.op, ast.Not) and isinstance(v.operand, ast.Name)
+                                                   and v.operand.id in self.guard_names)]
             if len(vals) == 1:
                 return vals[0]
             node.values = vals
@@ -206,9 +224,20 @@ class _PowellDelta(ast.NodeTransformer):
         return self.generic_visit(node)
 
 
+def _guard_names(stmts):
+    out = set()
+    for st in stmts:
+        for n in ast.walk(st):
+            if isinstance(n, ast.Assign) and len(n.targets) == 1 and isinstance(n.targets[0], ast.Name) and isinstance(n.value, ast.BinOp) and \
+                    isinstance(n.value.op, ast.BitAnd) and all(isinstance(x, ast.Call) and callee_text(x).endswith('isinf') for x in (n.value.left, n.value.right)):
+                out.add(n.targets[0].id)
+    return out
+
+
 def _norm_powell(stmts):
     out = []
     tr = _PowellDelta()
+    tr.guard_names = tuple(_guard_names(stmts))
     for st in stmts:
         r = tr.visit(copy.deepcopy(st))
         if r is None:
@@ -228,8 +257,8 @@ def powell_agrees_with_reference(ctx):
     ref_dir = _slice_from(wl.body, lambda s: _assigns_name(s, 'fx'), lambda s: isinstance(s, ast.AugAssign))
     ref_ext = _slice_from(wl.body, lambda s: _assigns_name(s, 'direc1'))
     ctx.need(ref_dir and ref_ext, 'reference fmin_powell fragments not found')
-    bd = SB.summary(SB.block(ref_dir), name_map={'func': 'cost'}, track_calls=('cost', '_linesearch_powell'))
-    be = SB.summary(SB.block(ref_ext), name_map={'func': 'cost'}, track_calls=('cost', '_linesearch_powell'))
+    bd = SB.summary(SB.block(_norm_powell(ref_dir)), name_map={'func': 'cost'}, track_calls=('cost', '_linesearch_powell'))
+    be = SB.summary(SB.block(_norm_powell(ref_ext)), name_map={'func': 'cost'}, track_calls=('cost', '_linesearch_powell'))
     # locate the branches of the solver
     chain = [s for s in f.node.body if isinstance(s, ast.If) and 'len(self._stepmon)' in unparse(s.test) and s.orelse]
     ctx.need(chain, 'generation dispatch not found in Powell _Step')
@@ -248,8 +277,10 @@ def powell_agrees_with_reference(ctx):
         ctx.check(a == want, 'PowellDirectionalSolver._Step#' + label, '%d path summaries equal the reference fmin_powell (modulo inf guard, constraints, maxiter)' % len(a),
                   'Powell\'s %s differs from the reference direction-set method: %s' % (label, SB.diff(a, want)), f, mine[0])
     # the declared delta itself: inf guard conjunct is exactly `not isnan`, isnan = isinf(fx2) & isinf(fval)
-    isn = [s for s in stmts_of(f.node) if _assigns_name(s, 'isnan')]
-    good = len(isn) == 2 and all(''.join(unparse(s.value).split()) == 'numpy.isinf(fx2)&numpy.isinf(fval)' for s in isn)
+    gn = _guard_names([f.node])
+    isn = [s for s in stmts_of(f.node) if isinstance(s, ast.Assign) and len(s.targets) == 1 and isinstance(s.targets[0], ast.Name) and s.targets[0].id in gn]
+    want_g = T.term(ast.parse('numpy.isinf(fx2)&numpy.isinf(fval)', mode='eval').body)
+    good = len(isn) == 2 and all(T.term(s.value) == want_g for s in isn)
     ctx.check(good, 'PowellDirectionalSolver._Step#inf-guard', 'inf guard = isinf(fx2) & isinf(fval)', 'the inf/inf guard changed: %s' % [unparse(s.value) for s in isn], f, isn[0] if isn else f.node)
     ls = ctx.func(SO + ':_linesearch_powell')
     lr = ctx.func(REF + ':_linesearch_powell')
@@ -258,7 +289,7 @@ def powell_agrees_with_reference(ctx):
         body = [s for s in fn.node.body if not ('seterr' in unparse(s))]
         return SB.block(body)
     a, b = SB.summary(strip(ls)), SB.summary(strip(lr))
-    mya, myb = ctx.func(SO + ':_linesearch_powell.myfunc'), ctx.func(REF + ':_linesearch_powell.myfunc')
+    mya, myb = callable_passed_to(ctx, ctx.func(SO + ':_linesearch_powell'), 'brent')[0], callable_passed_to(ctx, ctx.func(REF + ':_linesearch_powell'), 'brent')[0]
     ctx.check(a == b and SB.summary(mya.node) == SB.summary(myb.node), '_linesearch_powell', 'equals the reference copy (modulo the seterr bracket)',
               '_linesearch_powell differs from the reference: %s' % SB.diff(a, b), ls, ls.node)
 
